@@ -22,6 +22,7 @@ from .absint import Interp
 from .report import Finding
 
 WHAT = {
+    "X11": "every Context has its own root frame and its own '@cleanups' list (nothing shared between two runs in one process)",
     "X1": "Context._pop removes exactly one frame on every exit (also when a cleanup raises), after running the cleanups",
     "X2": "every cleanup runs exactly once, in reverse registration order, whatever the others do; first error re-raised iff fail_on_cleanup_errors",
     "X3": "add_cleanup registers into the current or the named layer; same callable with other arguments is registered again",
@@ -337,3 +338,51 @@ def check_use_or_param(chk, ix):
                 _fail(chk, "X10", f, "%s %s -> returns %r assigns %r" % (meth, case, ret, sets),
                       "Context.%s with the attribute %s: returns %r and assigns %r (an existing attribute, also one whose value is "
                       "None, must be returned untouched; a missing one is assigned)" % (meth, case, ret, sets), outs[0][0].path)
+
+
+def check_root_frame_is_own(chk, ix):
+    """X11: every Context starts with its own root frame: two Contexts built one after the other share neither the root
+    dictionary nor its '@cleanups' list (a test-run level cleanup of one run must not be run again by the next)."""
+    chk.rule("X11", WHAT["X11"])
+    cc = ix.cls("behave.runner:Context")
+    init = cc.lookup("__init__")
+    it = Interp(ix, stubs={"weakref.proxy": lambda i, s_, a, k, n: [(s_, "val", a[0])]}, name="Context.__init__")
+    it.shared_consts = True
+    it.list_cap = 100
+    st = State()
+    st.frames = []
+    runner = st.alloc(HObj("RunnerTok", {"config": st.alloc(HObj("ConfigTok", {}, open=True, label="config"))}, open=True, label="runner"))
+    ctxs = []
+    cur = st
+    for i in range(2):
+        me = cur.alloc(HObj(cc, {}, label="context#%d" % (i + 1)))
+        outs = [o for o in it.call_function(cur, init, [runner], {}, None, self_val=me)]
+        if len(outs) != 1 or outs[0][1] != "val":
+            raise AnalysisError("Context.__init__ not evaluable: %r" % ([(k, v) for _, k, v in outs][:3],))
+        cur = outs[0][0]
+        ctxs.append(me)
+    chk.absorb(it)
+
+    def root_and_cleanups(me):
+        root = cur.obj(me).fields.get("_root")
+        if not isinstance(root, Ref):
+            raise AnalysisError("Context._root is not a dictionary object after __init__: %r" % (root,))
+        items = dict(cur.obj(root).items)
+        return root, items.get("@cleanups")
+    (r1, c1), (r2, c2) = root_and_cleanups(ctxs[0]), root_and_cleanups(ctxs[1])
+    chk.instance("X11")
+    problems = []
+    if r1.oid == r2.oid:
+        problems.append("the two contexts share one root frame")
+    if not isinstance(c1, Ref) or not isinstance(c2, Ref):
+        problems.append("the root frame has no '@cleanups' list")
+    elif c1.oid == c2.oid:
+        problems.append("the two contexts share one '@cleanups' list (a class- or module-level default copied shallowly)")
+    st1 = cur.obj(cur.obj(ctxs[0]).fields.get("_stack"))
+    if not (st1.items and isinstance(st1.items[-1], Ref) and st1.items[-1].oid == r1.oid):
+        problems.append("the root frame is not the bottom of the frame stack")
+    if not problems:
+        chk.ok("X11", {"two Context objects": "own root frame, own '@cleanups' list, root at the bottom of the stack"}, nontrivial_key="own root")
+    else:
+        _fail(chk, "X11", init, problems[0], "Context.__init__: %s: test-run level cleanups registered in one run would run again in the next "
+              "run of the same process" % "; ".join(problems))
